@@ -248,6 +248,11 @@ class Repo:
                 from .desugar import desugar
                 tree, _n = desugar(tree)
                 self.n_match_desugared = getattr(self, 'n_match_desugared', 0) + _n
+            if os.environ.get('VERIF_NO_UNROLL') != '1' and (' for ' in text):
+                from .unroll import unroll
+                tree, _nu, _ns = unroll(tree)
+                self.n_unrolled = getattr(self, 'n_unrolled', 0) + _nu
+                self.n_spliced = getattr(self, 'n_spliced', 0) + _ns
             m = Module(name, p, tree, text, is_pkg)
             m.functions = FuncTable()
             m.functions.repo, m.functions.module = self, m
